@@ -17,8 +17,8 @@ text = ('Each change compiles, keeps the pinned suite green (33 tests incl. doct
         '-3/-4 a second round by fresh sub-agents after the checks had been strengthened; the recorded outcome is that of the FINAL machinery.\n'
         'First-pass misses and what was strengthened: round 1 - C03-2 (push_null ownership), C17-2 / C08-2 (label ownership), C12-1 (ubjson unit),\n'
         'C13-2 (Frame-level transpose_one contracts), C05-1/2, C16-1/2, C19-1/2, C09-2 (no native fallback yet: c05/c16/c19/c09 oracles added),\n'
-        'C02-1 (70000-frame candidates added), C07-2 (C07 now owns the reader-acceptance clause); round 2 - C06-2 (C06 now owns the Game Start\n'
-        'parser, unterminated / half-character text-field corruptions added), C10-2 (zero-frame candidates added), C13-4 (row view checked\n'
+        'C02-1 (70000-frame candidates added), C07-2 (C07 now owns the reader-acceptance clause); round 2 - C06-4 (C06 now owns the Game Start\n'
+        'parser, unterminated / half-character text-field corruptions added), C10-4 (zero-frame candidates added), C13-4 (row view checked\n'
         'mid-stream).  Everything else was caught on the first pass.\n\n'
         '| Seed | What it breaks | Outcome of the registered check(s) |\n|---|---|---|\n' + '\n'.join(rows) + '\n')
 p = os.path.join(V, 'DESIGN.md')
